@@ -890,6 +890,10 @@ void enumerate(const string &prop, long shard, long nshards) {
         for (int burst : {1, 3}) {
           if ((idx++ % nshards) != shard) continue;
           Case c; c.prop = "C19"; c.scen = s.scen; c.p1 = 20; c.p2 = 0; c.p3 = k;
+          // the tcp scenario runs as client for even p3 and as server for odd p3: a fault planned on connect needs the client role (the
+          // library makes the call), one on accept the server role
+          if (string(s.scen) == "tcp" && string(s.call) == "connect") c.p3 = 2 * k;
+          if (string(s.scen) == "tcp" && string(s.call) == "accept") c.p3 = 2 * k + 1;
           Fault f; f.call = s.call; f.k = k; f.kind = 1; f.burst = burst; f.arg = (k % 2) ? 15 : 0; c.plan.push_back(f);   // poll: the interruption arrives 15 ms into the wait for odd k
           exec("enum", c, false);
           if (string(s.scen) == "timed_wait") { Case d = c; d.p3 = k + 1; exec("enum", d, false); }   // both variants: nothing arrives / late datagram
